@@ -31,7 +31,9 @@ PROPERTY = {
                    "the image; (3) after reloc_to(new_base) the 32-bit value at every relocation site is the old one plus the base "
                    "difference (mod 2^32), every other section byte is unchanged and the image base is the new one. Bounded: "
                    "exploration, not proof.",
-    "rule": "one case = one generated image, all three contracts",
+    "rule": "one case = one generated image, all three contracts; plus, shape-bounded SYMBOLIC (pyvc + z3): rva2off / off2rva / "
+            "virt2rva / rva2virt / virt2off / off2virt / getsectionbyrva over two aligned disjoint sections with symbolic addresses, "
+            "sizes, file offsets and image base are mutually inverse on every file-backed address of a section",
     "trusted_base": ["CPython executes the real loader; the generator and the comparisons are written independently in props/C42.py"],
     "assumptions": ["seeded family of props/C42.py (800 quick / 6000 thorough images)", "relocation sites are 4-byte aligned, "
                     "lie inside section data and do not overlap each other; type 3 (HIGHLOW) only, as reloc_to supports",
@@ -278,7 +280,95 @@ class PeCases(BoundedContract):
         return (why is None, why or "", True)
 
 
+# ---------------------------------------------------------------------------------------------------------------------------------
+# Shape-bounded SYMBOLIC layer (pyvc + z3): the address maps of PE over two sections whose addresses, sizes and file offsets are
+# symbolic (aligned, disjoint, in order), for every address inside the file-backed part of a section
+
+class _Sec(object):
+    def __init__(self, name, addr, size, offset, rawsize):
+        self.name, self.addr, self.size, self.offset, self.rawsize = name, addr, size, offset, rawsize
+
+    def __repr__(self):
+        return "<section %s>" % self.name
+
+
+class _Holder(object):
+    def __init__(self, **kw):
+        self.__dict__.update(kw)
+
+    def __repr__(self):
+        return "<holder>"
+
+
+class _PE(PE):
+    def __repr__(self):
+        return "<pe>"
+
+
+def _mk_maps_target(which):
+    def body(ctx):
+        from vc.terms import And
+        a0 = ctx.int("page0", 2, None, rnd_hi=40)
+        n0 = ctx.int("size0", 1, None, rnd_hi=0x3000)
+        gap = ctx.int("gap_pages", 0, None, rnd_hi=4)
+        n1 = ctx.int("size1", 1, None, rnd_hi=0x3000)
+        o0 = ctx.int("fblock0", 2, None, rnd_hi=40)
+        r0 = ctx.int("rawsize0", 1, None, rnd_hi=0x3000)
+        og = ctx.int("fgap_blocks", 0, None, rnd_hi=4)
+        r1 = ctx.int("rawsize1", 1, None, rnd_hi=0x3000)
+        base = ctx.int("image_base", 0x10000, None, rnd_hi=0x7FFF0000)
+        for v in (n0, n1, r0, r1):
+            ctx.assume(v <= 0x100000)
+        addr0 = 0x1000 * a0
+        # the second section starts on the first page boundary after the first one, plus a gap
+        pages0 = ctx.int("pages0", 1, None, rnd_hi=4)
+        ctx.assume(And(0x1000 * (pages0 - 1) < n0, n0 <= 0x1000 * pages0))
+        addr1 = addr0 + 0x1000 * (pages0 + gap)
+        off0 = 0x200 * o0
+        blocks0 = ctx.int("blocks0", 1, None, rnd_hi=30)
+        ctx.assume(And(0x200 * (blocks0 - 1) < r0, r0 <= 0x200 * blocks0))
+        off1 = off0 + 0x200 * (blocks0 + og)
+        pe = _PE.__new__(_PE)
+        secs = [_Sec("s0", addr0, n0, off0, r0), _Sec("s1", addr1, n1, off1, r1)]
+        pe.SHList = _Holder(shlist=secs)
+        pe.NThdr = _Holder(sectionalignment=0x1000, filealignment=0x200, sizeofheaders=0x400, ImageBase=base)
+        k = 0 if which == "first" else 1
+        sec = secs[k]
+        d = ctx.int("delta", 0, None, rnd_hi=0x3000)
+        ctx.assume(And(d < sec.size, d < sec.rawsize))          # an address of the section that has file data behind it
+        rva = sec.addr + d
+        r = ctx.call(PE.rva2off, pe, rva)
+        if r.raised:
+            ctx.check("rva2off-no-raise", False, kind="no-raise")
+            return
+        ctx.cover("ret")
+        ctx.check("rva2off-value", r.value == sec.offset + d)
+        back = ctx.call(PE.off2rva, pe, r.value)
+        ctx.check("off2rva-inverse", (not back.raised) and back.value == rva)
+        v = ctx.call(PE.rva2virt, pe, rva)
+        ctx.check("rva2virt-value", v.value == base + rva)
+        ctx.check("virt2rva-inverse", ctx.call(PE.virt2rva, pe, v.value).value == rva)
+        ctx.check("virt2off", ctx.call(PE.virt2off, pe, v.value).value == r.value)
+        ctx.check("off2virt", ctx.call(PE.off2virt, pe, r.value).value == v.value)
+        hit = ctx.call(PE.getsectionbyrva, pe, rva)
+        ctx.check("section-of-rva", hit.value is sec)
+    return body
+
+
+def proof_targets():
+    from harness.core import Target
+    ts = []
+    for which in ("first", "second"):
+        t = Target("C42/PE.address-maps/%s-section" % which,
+                   [PE.rva2off, PE.off2rva, PE.virt2rva, PE.rva2virt, PE.virt2off, PE.off2virt, PE.getsectionbyrva, PE.getsectionbyoff],
+                   _mk_maps_target(which), kind="bounded",
+                   bound="two sections, page / file-block aligned, disjoint and in order; addresses, sizes, offsets and the image base symbolic")
+        t.expect_covers = ["ret"]
+        ts.append(t)
+    return ts
+
+
 def targets(tier):
-    return chunked(PeCases, "C42/pe-roundtrip", 16, tier)
+    return proof_targets() + chunked(PeCases, "C42/pe-roundtrip", 16, tier)
 
 
